@@ -21,10 +21,10 @@ m = {
     'version': 1,
     'setup_cmd': 'python3 tools/setup_check.py',
     'hooks': {'guard': 'QTLOGGER_VERIF', 'enable': 'none needed: /repo is read as is (AST extraction); no hook commits', 'baseline_off_cmd': 'cmake --build /repo/_build && ctest --test-dir /repo/_build -j8 --timeout 900', 'source_commits': HOOK_COMMITS, 'add_only': True},
-    'engines': [{'name': 'vf', 'path': 'vf/', 'serves_properties': sorted(CLAIMS), 'kind_free_text': 'contract-based deductive verification: clang JSON AST of the real TUs -> mechanical lowering to C -> sidecar contracts -> goto-cc / goto-instrument --dfcc / cbmc (SAT, kissat, cvc5)'}],
+    'engines': [{'name': 'vf', 'path': 'vf/', 'serves_properties': sorted(CLAIMS), 'kind_free_text': 'contract-based deductive verification: clang JSON AST of the real TUs -> mechanical lowering to C -> sidecar contracts -> goto-cc / goto-instrument --dfcc (function contracts, loop contracts) / cbmc (SAT: cadical; thorough tier: re-discharged with minisat, plus a bounded native search on the real code that proves nothing)'}],
     'checks': checks,
     'not_applicable': [{'property_id': k, 'reason': v} for k, v in sorted(NOT_APPLICABLE.items())],
-    'notes': 'Exit codes: 0 held, 1 VIOLATION, 2 UNDECIDED (lowering gap, model gap, timeout: never a verdict). See DESIGN.md.',
+    'notes': 'Exit codes: 0 held on everything explored (KNOWN-FINDING lines for recorded findings; BOUNDED lines when a proof whose loop contracts no longer fit the code was replaced by a labelled bounded stand-in, never counted as proved), 1 VIOLATION, 2 UNDECIDED (lowering gap, model gap, timeout: never a verdict). See DESIGN.md, section 10 first.',
 }
 json.dump(m, open(os.path.join(V, 'MANIFEST.json'), 'w'), indent=1)
 print('MANIFEST.json: %d checks, %d not_applicable' % (len(checks), len(m['not_applicable'])))
